@@ -14,6 +14,9 @@ Emits lean/TempestVerif/Gen/WeightSites.lean:
   * cacheWriters         methods that assign `self._results_dict`
   * evidenceBody / posteriorHead   `compute_evidence` and the first statements of `compute_posterior` (what is handed out)
 The translator never guesses: an unrecognised shape gives status `unavailable` (the dynamic suites then carry the tie alone).
+
+Second half (G13b, `generate_src` → Gen/WeightSrc.lean): the arithmetic, tests and return tree of the same functions COMPILED to
+terms over `ScT α` with canonical local names — see the comment block before `_canonicalise`.
 """
 import ast
 import glob
@@ -197,7 +200,565 @@ def generate():
                                       f"{len(t['logwCallSites'])} call sites)")
 
 
+# =====================================================================================================================
+# G13b — SOURCE-DERIVED MODEL (C04 third pass): the arithmetic of `compute_logw_and_logz` / `compute_posterior` COMPILED
+#
+# Emits lean/TempestVerif/Gen/WeightSrc.lean.  For each of the functions below
+#     logw  = StateManager.compute_logw_and_logz        post = SamplerCore.compute_posterior
+#     evid  = SamplerCore.compute_evidence
+#   1. LOCAL NAMES ARE CANONICALISED: every name bound inside the function (assignment / tuple / loop / comprehension target;
+#      parameters and `_` excluded) is renamed `v0, v1, …` in order of first binding, so a pure renaming of locals gives the
+#      same output.  Comments, docstrings, blank lines and formatting never reach the AST.
+#   2. `<f>Canon : List String` — the statement skeleton of the canonical function (`path: statement`, program order; `t`/`e`
+#      = then / else block): which branch assigns what, what is returned, order and arguments of every call.
+#   3. every ARITHMETIC right-hand side (`+ - * /`, unary minus, np.exp / np.log / np.sqrt / np.abs, numeric literals) of an
+#      assignment, augmented assignment or return is compiled to a term over the scalar interface `ScT α`, one definition
+#      `<f>_<path>` per statement, elementwise (numpy arrays become scalar parameters; pure broadcasting subscripts
+#      `[:, None]`, `[None, :]` are dropped from the term and kept in the leaf text).  Whatever is not arithmetic — a name,
+#      `x.size`, `len(x)`, a reduction `np.max(x)` / `np.sum(x)` / `np.logaddexp.reduce(x, axis=1)`, any other call — is a LEAF
+#      = a parameter `a<k>`, numbered in a canonical order that does NOT depend on where the leaf stands in the expression
+#      (canonical locals by number, then the other leaves by text: `_leaf_key`) — so swapping two operands changes the term;
+#      `<f>Leaves` lists the canonical source text of every parameter of every definition.  `<f>_<path>_full` is the same statement with the arithmetic definitions of the locals it uses
+#      substituted (only while nothing they mention has been reassigned), i.e. the data flow between arithmetic statements.
+#   4. every `if` test is compiled to a Bool term `<f>_<path>_test` over Bool / Nat / scalar parameters (`and`, `or`, `not`,
+#      `is None`, `is not None`, comparisons of sizes with integer literals or of scalars, truthiness of a size = `≠ 0`).
+#   5. an `if` tree all of whose leaves are `return <tuple of names>` is compiled to a function `<f>_<path>_ret` returning
+#      the list of (canonical) names handed out; `<f>Gathers` lists every index gather `X = X[I]` with its path.
+#   6. numeric defaults of the signature (`<f>_default_<k>`), numeric literals handed to a call (`<f>_<path>_arg<j>`), and
+#      every call site of `compute_logw_and_logz` in the package with its literal arguments (`site<k>_arg<j>`, `callSites`).
+# Sanitisation: generated identifiers are `<prefix>_<path>` over [A-Za-z0-9_] and binders `a<k>`; source text only ever
+# appears inside Lean string literals (`\\` and `"` escaped, one line, no control characters) or doc comments (`-/`, `/-`
+# and back-ticks defused).
+# `Props/C04Source.lean` proves (by `rfl` / `cases … <;> rfl`, for every scalar type) that the hand-written models unfold to
+# exactly these terms.  The translator never guesses: a statement or expression outside this language gives `unavailable`.
+# =====================================================================================================================
+import copy
+import re as _re
+from fractions import Fraction
+
+_ARITH_CALLS = {"np.exp": "ScT.exp", "np.log": "ScT.log", "np.sqrt": "ScT.sqrt", "np.abs": "Sc.abs", "abs": "Sc.abs",
+                "numpy.exp": "ScT.exp", "numpy.log": "ScT.log", "numpy.sqrt": "ScT.sqrt", "numpy.abs": "Sc.abs"}
+_BINOPS = {ast.Add: "Sc.add", ast.Sub: "Sc.sub", ast.Mult: "Sc.mul", ast.Div: "Sc.div"}
+
+
+def _dotted(node):
+    if isinstance(node, ast.Name):
+        return node.id
+    if isinstance(node, ast.Attribute):
+        b = _dotted(node.value)
+        return None if b is None else b + "." + node.attr
+    return None
+
+
+def _txt(node):
+    """canonical one-line source text of a node (double quotes never appear: ast.unparse prefers single quotes, the rest is mapped)"""
+    return " ".join(ast.unparse(node).split()).replace('"', "'")
+
+
+def _is_doc(st):
+    return isinstance(st, ast.Expr) and isinstance(st.value, ast.Constant) and isinstance(st.value.value, str)
+
+
+# ---------------------------------------------------------------------------------------------- canonical local names
+def _canonicalise(fn):
+    """a deep copy of `fn` with every locally bound name renamed v0, v1, … in order of first binding"""
+    a = fn.args
+    params = [x.arg for x in a.posonlyargs + a.args + a.kwonlyargs] + [x.arg for x in (a.vararg, a.kwarg) if x is not None]
+    stores, others = [], set(params)
+    for n in ast.walk(fn):
+        if n is not fn and isinstance(n, (ast.FunctionDef, ast.AsyncFunctionDef, ast.Lambda, ast.ClassDef)):
+            raise Unavailable(f"{fn.name}: nested {type(n).__name__} (line {n.lineno})")
+        if isinstance(n, (ast.Global, ast.Nonlocal, ast.Try, ast.With, ast.AsyncWith, ast.AsyncFor, ast.Match if hasattr(ast, 'Match') else ast.Try)):
+            raise Unavailable(f"{fn.name}: statement {type(n).__name__} (line {n.lineno}) outside the statement language")
+        if isinstance(n, ast.Name):
+            if isinstance(n.ctx, ast.Store) and n.id not in params and n.id != "_":
+                stores.append((n.lineno, n.col_offset, n.id))
+        elif isinstance(n, ast.alias):
+            others.add((n.asname or n.name).split(".")[0])
+    order = []
+    for _l, _c, name in sorted(stores):
+        if name not in order:
+            order.append(name)
+    for n in ast.walk(fn):
+        if isinstance(n, ast.Name) and n.id not in order:
+            others.add(n.id)
+    prefix = "v"
+    while any(_re.fullmatch(_re.escape(prefix) + r"\d+", o) for o in others):
+        prefix += "_"
+    ren = {name: f"{prefix}{k}" for k, name in enumerate(order)}
+
+    class R(ast.NodeTransformer):
+        def visit_Name(self, node):
+            return ast.copy_location(ast.Name(id=ren.get(node.id, node.id), ctx=node.ctx), node)
+
+    out = R().visit(copy.deepcopy(fn))
+    return out, ren
+
+
+# ---------------------------------------------------------------------------------------------- literals, arithmetic
+def _lit(v):
+    if isinstance(v, bool) or not isinstance(v, (int, float)):
+        raise Unavailable(f"literal {v!r} is not numeric")
+    f = float(v)
+    if f != f or f in (float("inf"), float("-inf")) or f < 0:
+        raise Unavailable(f"literal {v!r} outside the literal language")
+    if f == int(f) and f < 2 ** 53:
+        return f"(Sc.ofNat {int(f)})"
+    r = repr(f)
+    if "e" in r or "E" in r:
+        raise Unavailable(f"literal {v!r}: exponent form of a non-integer")
+    whole, frac = r.split(".")
+    m, e = int(whole + frac), len(frac)
+    if Fraction(m, 10 ** e) != Fraction(r):
+        raise Unavailable(f"literal {v!r}: decimal expansion not exact")
+    return f"(Sc.lit {m} {e})"
+
+
+def _strip_bcast(n):
+    """`x[:, None]`, `x[None, :]`, `x[None]`, `x[:, None, None]` … → x (a pure change of shape), else None"""
+    if not isinstance(n, ast.Subscript):
+        return None
+    sl = n.slice
+    elts = sl.elts if isinstance(sl, ast.Tuple) else [sl]
+
+    def full(e):
+        return isinstance(e, ast.Slice) and e.lower is None and e.upper is None and e.step is None
+
+    def none(e):
+        return isinstance(e, ast.Constant) and e.value is None
+    if elts and all(full(e) or none(e) for e in elts) and any(none(e) for e in elts):
+        return n.value
+    return None
+
+
+_NONSCALAR = (ast.Tuple, ast.List, ast.Set, ast.Dict, ast.JoinedStr, ast.ListComp, ast.SetComp, ast.DictComp, ast.GeneratorExp)
+
+
+def _nonscalar(n):
+    return isinstance(n, _NONSCALAR) or (isinstance(n, ast.Constant) and isinstance(n.value, (str, bytes)))
+
+
+def _is_arith(n):
+    if isinstance(n, ast.BinOp):
+        # `result + (blobs,)`, `'a' + s`, `[0] * n`: container / string operators, not arithmetic (skeleton only)
+        return not (_nonscalar(n.left) or _nonscalar(n.right))
+    if isinstance(n, ast.UnaryOp) and isinstance(n.op, (ast.USub, ast.UAdd)):
+        return not (isinstance(n.operand, ast.Attribute) and _dotted(n.operand) in ("np.inf", "numpy.inf"))
+    if isinstance(n, ast.Call) and _dotted(n.func) in _ARITH_CALLS:
+        return True
+    b = _strip_bcast(n)
+    return b is not None and _is_arith(b)
+
+
+_LEAF_NODES = (ast.Name, ast.Attribute, ast.Call, ast.Subscript)
+
+
+def _leaf_key(text):
+    """canonical order of the parameters of a generated term — INDEPENDENT of where a leaf stands in the expression, so that
+    swapping two operands changes the term (and breaks the `rfl`), not merely the numbering: canonical locals `v<k>` (bare or
+    broadcast) by k, then everything else by its text (digit runs compared as numbers)"""
+    m = _re.fullmatch(r"v_*(\d+)(\[[^\]]*\])?", text)
+    nat = tuple((0, int(c), "") if c.isdigit() else (1, 0, c) for c in _re.findall(r"\d+|\D+", text))
+    return (0, int(m.group(1)), nat) if m else (1, 0, nat)
+
+
+class _Params:
+    """parameters of one generated definition: (leaf text, Lean type); numbered by `_leaf_key` when the definition is closed"""
+
+    def __init__(self):
+        self.keys, self.types = [], []
+
+    def get(self, node, ty):
+        key = _txt(node)
+        if key in self.keys:
+            k = self.keys.index(key)
+            if self.types[k] != ty:
+                raise Unavailable(f"leaf {key!r} is used both as {self.types[k]} and as {ty}")
+            return f"\x00{k}\x00"
+        self.keys.append(key)
+        self.types.append(ty)
+        return f"\x00{len(self.keys) - 1}\x00"
+
+    def close(self, body):
+        """(binders, body with the final parameter names, leaf texts in parameter order)"""
+        order = sorted(range(len(self.keys)), key=lambda k: _leaf_key(self.keys[k]))
+        pos = {k: i for i, k in enumerate(order)}
+        body = _re.sub("\x00(\\d+)\x00", lambda m: f"a{pos[int(m.group(1))]}", body)
+        binders = "".join(f" (a{i} : {self.types[k]})" for i, k in enumerate(order))
+        return binders, body, [self.keys[k] for k in order]
+
+
+def _term(n, P, env=None):
+    """arithmetic expression → term over `ScT α`; `env` (canonical local → its arithmetic definition) is substituted if given"""
+    if isinstance(n, ast.Constant):
+        return _lit(n.value)
+    b = _strip_bcast(n)
+    if b is not None and (_is_arith(b) or (env is not None and isinstance(b, ast.Name) and b.id in env)):
+        return _term(b, P, env)
+    if isinstance(n, ast.Name) and env is not None and n.id in env:
+        return _term(env[n.id], P, env)
+    if isinstance(n, ast.UnaryOp) and isinstance(n.op, ast.USub):
+        return f"(Sc.neg {_term(n.operand, P, env)})"
+    if isinstance(n, ast.UnaryOp) and isinstance(n.op, ast.UAdd):
+        return _term(n.operand, P, env)
+    if isinstance(n, ast.BinOp):
+        op = _BINOPS.get(type(n.op))
+        if op is None:
+            raise Unavailable(f"operator {type(n.op).__name__} in {_txt(n)!r} (line {n.lineno}) outside the expression language")
+        x = _term(n.left, P, env)
+        y = _term(n.right, P, env)
+        return f"({op} {x} {y})"
+    if isinstance(n, ast.Call) and _dotted(n.func) in _ARITH_CALLS:
+        if len(n.args) != 1 or n.keywords:
+            raise Unavailable(f"call {_txt(n)!r} (line {n.lineno}): expected exactly one positional argument")
+        return f"({_ARITH_CALLS[_dotted(n.func)]} {_term(n.args[0], P, env)})"
+    if isinstance(n, _LEAF_NODES):
+        return P.get(n, "α")
+    raise Unavailable(f"expression {_txt(n)!r} (line {getattr(n, 'lineno', '?')}) outside the expression language")
+
+
+def _names_in(n):
+    return {x.id for x in ast.walk(n) if isinstance(x, ast.Name)}
+
+
+# ---------------------------------------------------------------------------------------------- tests
+def _is_size(n):
+    """a non-negative integer read off an array: `x.size`, `len(x)`, `x.shape[k]`"""
+    if isinstance(n, ast.Attribute) and n.attr == "size":
+        return True
+    if isinstance(n, ast.Call) and _dotted(n.func) == "len" and len(n.args) == 1 and not n.keywords:
+        return True
+    if isinstance(n, ast.Subscript) and isinstance(n.value, ast.Attribute) and n.value.attr == "shape":
+        return True
+    return False
+
+
+def _is_natlit(n):
+    return isinstance(n, ast.Constant) and isinstance(n.value, int) and not isinstance(n.value, bool) and n.value >= 0
+
+
+def _test(n, P):
+    """boolean context → Bool term"""
+    if isinstance(n, ast.BoolOp):
+        op = " && " if isinstance(n.op, ast.And) else " || "
+        parts = [_test(v, P) for v in n.values]
+        out = parts[0]
+        for q in parts[1:]:
+            out = f"({out}{op}{q})"
+        return out
+    if isinstance(n, ast.UnaryOp) and isinstance(n.op, ast.Not):
+        return f"(!{_test(n.operand, P)})"
+    if isinstance(n, ast.Compare):
+        if len(n.ops) != 1:
+            raise Unavailable(f"test {_txt(n)!r} (line {n.lineno}): chained comparison")
+        op, l, r = type(n.ops[0]), n.left, n.comparators[0]
+        if op in (ast.Is, ast.IsNot):
+            if not (isinstance(r, ast.Constant) and r.value is None):
+                raise Unavailable(f"test {_txt(n)!r} (line {n.lineno}): `is` against something other than None")
+            return P.get(n, "Bool")
+        if (_is_size(l) or _is_natlit(l)) and (_is_size(r) or _is_natlit(r)):
+            def nat(e):
+                return str(e.value) if _is_natlit(e) else P.get(e, "Nat")
+            x, y = nat(l), nat(r)
+            f = {ast.Eq: f"({x} == {y})", ast.NotEq: f"({x} != {y})", ast.Lt: f"(decide ({x} < {y}))",
+                 ast.LtE: f"(decide ({x} ≤ {y}))", ast.Gt: f"(decide ({y} < {x}))", ast.GtE: f"(decide ({y} ≤ {x}))"}.get(op)
+            if f is None:
+                raise Unavailable(f"comparison {op.__name__} in {_txt(n)!r}")
+            return f
+        x, y = _term(l, P), _term(r, P)
+        if op is ast.Eq:
+            return f"(Sc.le {x} {y} && Sc.le {y} {x})"
+        f = {ast.Lt: "Sc.lt", ast.LtE: "Sc.le", ast.Gt: "Sc.gt", ast.GtE: "Sc.ge"}.get(op)
+        if f is None:
+            raise Unavailable(f"comparison {op.__name__} in {_txt(n)!r}")
+        return f"({f} {x} {y})"
+    if _is_size(n):
+        return f"({P.get(n, 'Nat')} != 0)"
+    if isinstance(n, ast.Constant) and isinstance(n.value, bool):
+        return "true" if n.value else "false"
+    if isinstance(n, (ast.Name, ast.Attribute)):
+        return P.get(n, "Bool")
+    raise Unavailable(f"test {_txt(n)!r} (line {getattr(n, 'lineno', '?')}) outside the test language")
+
+
+# ---------------------------------------------------------------------------------------------- one function
+def _ident(prefix, path, suffix=""):
+    s = f"{prefix}_{path.replace('.', '_')}{suffix}"
+    if not _re.fullmatch(r"[A-Za-z][A-Za-z0-9_]*", s):
+        raise Unavailable(f"cannot form an identifier from {s!r}")
+    return s
+
+
+def _doc(text):
+    return text.replace("-/", "- /").replace("/-", "/ -").replace("`", "'")
+
+
+class _FnOut:
+    def __init__(self):
+        self.defs, self.canon, self.leaves, self.gathers = [], [], [], []
+
+
+def _stored(st):
+    return {x.id for x in ast.walk(st) if isinstance(x, ast.Name) and isinstance(x.ctx, ast.Store)}
+
+
+def _ret_names(stmts):
+    """body of a branch that is exactly `return <name | tuple of names>` → the names"""
+    if len(stmts) == 1 and isinstance(stmts[0], ast.Return) and stmts[0].value is not None:
+        v = stmts[0].value
+        elts = v.elts if isinstance(v, ast.Tuple) else [v]
+        if all(isinstance(e, ast.Name) for e in elts):
+            return [e.id for e in elts]
+    return None
+
+
+def _ret_tree(st, P):
+    """an if-tree whose leaves are all `return <names>` → Lean term of type `List String` (None if it is not such a tree)"""
+    def branch(stmts):
+        names = _ret_names(stmts)
+        if names is not None:
+            return "[" + ", ".join(_q(x) for x in names) + "]"
+        if len(stmts) == 1 and isinstance(stmts[0], ast.If):
+            return node(stmts[0])
+        return None
+
+    def node(s):
+        if not s.orelse:
+            return None
+        c = _test(s.test, P)                    # a test that is outside the language is reported before its branches
+        t = branch(s.body)
+        e = branch(s.orelse) if t is not None else None
+        if t is None or e is None:
+            return None
+        return f"(if {c} then {t} else {e})"
+    return node(st)
+
+
+def _compile_fn(fn, prefix):
+    cfn, _ren = _canonicalise(fn)
+    out = _FnOut()
+
+    def emit_term(name, node, env, comment, leaves_of=None):
+        P = _Params()
+        binders, body, texts = P.close(_term(node, P, env))
+        out.defs.append(f"/-- `{_doc(comment)}` -/\ndef {name}{binders} : α := {body}")
+        out.leaves.append((name, texts))
+        return texts, body
+
+    def emit_test(name, node, comment):
+        P = _Params()
+        binders, body, texts = P.close(_test(node, P))
+        out.defs.append(f"/-- `{_doc(comment)}` -/\ndef {name}{binders} : Bool := {body}")
+        out.leaves.append((name, texts))
+
+    def kill(env, name):
+        env.pop(name, None)
+        for k in [k for k, v in env.items() if name in _names_in(v)]:
+            env.pop(k)
+
+    def arith_stmt(p, target, rhs, env, text):
+        name = _ident(prefix, p)
+        texts0, body0 = emit_term(name, rhs, None, text)
+        if env:
+            P1 = _Params()
+            binders, body, texts = P1.close(_term(rhs, P1, env))
+            if (texts, body) != (texts0, body0):
+                out.defs.append(f"/-- `{_doc(text)}` with the arithmetic definitions of its locals substituted -/\n"
+                                f"def {name}_full{binders} : α := {body}")
+                out.leaves.append((name + "_full", texts))
+        if target is not None:
+            # the definition that later statements may substitute: itself in substituted form (as an AST)
+            full = _subst(rhs, env)
+            kill(env, target)
+            if target not in _names_in(full):
+                env[target] = full
+
+    def block(stmts, path, env):
+        k = 0
+        for st in stmts:
+            if _is_doc(st) or isinstance(st, ast.Pass):
+                continue
+            p = f"{path}{k}"
+            k += 1
+            if isinstance(st, ast.If):
+                out.canon.append(f"{p}: if {_txt(st.test)}")
+                emit_test(_ident(prefix, p, "_test"), st.test, "if " + _txt(st.test))
+                P = _Params()
+                tree = _ret_tree(st, P)
+                if tree is not None:
+                    binders, tree, texts = P.close(tree)
+                    out.defs.append(f"/-- the names handed out by the `return` tree at `{p}` -/\n"
+                                    f"def {_ident(prefix, p, '_ret')}{binders} : List String := {tree}")
+                    out.leaves.append((_ident(prefix, p, "_ret"), texts))
+                block(st.body, p + "t.", dict(env))
+                if st.orelse:
+                    block(st.orelse, p + "e.", dict(env))
+                for nm in _stored(st):
+                    kill(env, nm)
+            elif isinstance(st, (ast.For, ast.While)):
+                if st.orelse:
+                    raise Unavailable(f"{fn.name}: loop with an else block (line {st.lineno})")
+                if isinstance(st, ast.For):
+                    out.canon.append(f"{p}: for {_txt(st.target)} in {_txt(st.iter)}")
+                else:
+                    out.canon.append(f"{p}: while {_txt(st.test)}")
+                    emit_test(_ident(prefix, p, "_test"), st.test, "while " + _txt(st.test))
+                for nm in _stored(st):
+                    kill(env, nm)
+                block(st.body, p + ".", {})
+            elif isinstance(st, ast.Assign):
+                out.canon.append(f"{p}: {_txt(st)}")
+                tgt = st.targets[0].id if len(st.targets) == 1 and isinstance(st.targets[0], ast.Name) else None
+                if isinstance(st.value, ast.Call):          # numeric literals handed to a call: `…compute_logw_and_logz(1.0)`
+                    for j, a in enumerate(st.value.args):
+                        if isinstance(a, ast.Constant) and isinstance(a.value, (int, float)) and not isinstance(a.value, bool):
+                            emit_term(_ident(prefix, p, f"_arg{j}"), a, None, f"argument {j} of {_txt(st.value)}")
+                if _is_arith(st.value):
+                    arith_stmt(p, tgt, st.value, env, _txt(st))
+                    if tgt is None:
+                        for nm in _stored(st):
+                            kill(env, nm)
+                else:
+                    for nm in _stored(st):
+                        kill(env, nm)
+                    v = st.value
+                    if (tgt is not None and isinstance(v, ast.Subscript) and isinstance(v.value, ast.Name) and v.value.id == tgt
+                            and isinstance(v.slice, ast.Name)):
+                        out.gathers.append((p, tgt, v.slice.id))
+            elif isinstance(st, ast.AugAssign):
+                out.canon.append(f"{p}: {_txt(st)}")
+                if not isinstance(st.target, ast.Name):
+                    raise Unavailable(f"{fn.name}: augmented assignment to {_txt(st.target)!r} (line {st.lineno})")
+                rhs = ast.copy_location(ast.BinOp(left=ast.Name(id=st.target.id, ctx=ast.Load()), op=st.op, right=st.value), st)
+                ast.fix_missing_locations(rhs)
+                if _is_arith(rhs):
+                    arith_stmt(p, st.target.id, rhs, env, _txt(st))
+                else:
+                    kill(env, st.target.id)
+            elif isinstance(st, ast.Return):
+                out.canon.append(f"{p}: {_txt(st)}")
+                if st.value is not None and _is_arith(st.value):
+                    arith_stmt(p, None, st.value, env, _txt(st))
+            elif isinstance(st, (ast.Expr, ast.Import, ast.ImportFrom, ast.Raise, ast.Assert, ast.AnnAssign, ast.Delete)):
+                out.canon.append(f"{p}: {_txt(st)}")
+                for nm in _stored(st):
+                    kill(env, nm)
+            else:
+                raise Unavailable(f"{fn.name}: statement {type(st).__name__} (line {st.lineno}) outside the statement language")
+    # defaults of the signature (positional parameters): numeric → scalar term, bool → Bool
+    pos = cfn.args.posonlyargs + cfn.args.args
+    for k, (a, d) in enumerate(zip(pos[len(pos) - len(cfn.args.defaults):], cfn.args.defaults), start=len(pos) - len(cfn.args.defaults)):
+        if isinstance(d, ast.Constant) and isinstance(d.value, bool):
+            out.defs.append(f"/-- default of parameter {k} `{_doc(a.arg)}` -/\ndef {prefix}_default_{k} : Bool := {'true' if d.value else 'false'}")
+            out.leaves.append((f"{prefix}_default_{k}", [f"{a.arg}={_txt(d)}"]))
+        elif isinstance(d, ast.Constant) and isinstance(d.value, (int, float)):
+            out.defs.append(f"/-- default of parameter {k} `{_doc(a.arg)}` -/\ndef {prefix}_default_{k} : α := {_lit(d.value)}")
+            out.leaves.append((f"{prefix}_default_{k}", [f"{a.arg}={_txt(d)}"]))
+    block(cfn.body, "", {})
+    return out
+
+
+def _subst(n, env):
+    """AST of an arithmetic expression with the arithmetic definitions of its locals substituted (arithmetic positions only)"""
+    if isinstance(n, ast.Name) and n.id in env:
+        return copy.deepcopy(env[n.id])
+    b = _strip_bcast(n)
+    if b is not None and (_is_arith(b) or (isinstance(b, ast.Name) and b.id in env)):
+        return _subst(b, env)
+    if isinstance(n, ast.UnaryOp) and isinstance(n.op, (ast.USub, ast.UAdd)):
+        return ast.copy_location(ast.UnaryOp(op=n.op, operand=_subst(n.operand, env)), n)
+    if isinstance(n, ast.BinOp):
+        return ast.copy_location(ast.BinOp(left=_subst(n.left, env), op=n.op, right=_subst(n.right, env)), n)
+    if isinstance(n, ast.Call) and _dotted(n.func) in _ARITH_CALLS and len(n.args) == 1 and not n.keywords:
+        return ast.copy_location(ast.Call(func=n.func, args=[_subst(n.args[0], env)], keywords=[]), n)
+    return n
+
+
+SRC_FUNCS = [("logw", "tempest/state_manager.py", "StateManager", "compute_logw_and_logz"),
+             ("res", "tempest/state_manager.py", "StateManager", "compute_results"),
+             ("post", "tempest/core.py", "SamplerCore", "compute_posterior"),
+             ("evid", "tempest/core.py", "SamplerCore", "compute_evidence")]
+
+
+def _call_sites():
+    """every call `….compute_logw_and_logz(args)` of the package, in (file, line) order: its place, its argument texts, and a
+    compiled term for every argument that is a numeric literal (the target temperature `1.0` of the four observation points)"""
+    defs, rows = [], []
+    root = os.path.join(common.REPO, "tempest")
+    k = 0
+    for path in sorted(glob.glob(os.path.join(root, "**", "*.py"), recursive=True)):
+        rel = os.path.relpath(path, common.REPO)
+        with open(path) as fh:
+            tree = ast.parse(fh.read(), filename=path)
+        owner = {}
+        for c in [n for n in tree.body if isinstance(n, ast.ClassDef)]:
+            for f in [n for n in c.body if isinstance(n, ast.FunctionDef)]:
+                for n in ast.walk(f):
+                    owner[id(n)] = f"{c.name}.{f.name}"
+        calls = [n for n in ast.walk(tree) if isinstance(n, ast.Call) and isinstance(n.func, ast.Attribute)
+                 and n.func.attr == "compute_logw_and_logz"]
+        for n in sorted(calls, key=lambda n: (n.lineno, n.col_offset)):
+            args = [_txt(a) for a in n.args] + [f"{kw.arg}={_txt(kw.value)}" for kw in n.keywords]
+            rows.append((f"site{k}", owner.get(id(n), "<module>"), ", ".join(args)))
+            for j, a in enumerate(n.args):
+                if isinstance(a, ast.Constant) and isinstance(a.value, (int, float)) and not isinstance(a.value, bool):
+                    defs.append(f"/-- argument {j} of call site {k}: `{_doc(rel)}` `{_doc(owner.get(id(n), '<module>'))}` -/\n"
+                                f"def site{k}_arg{j} : α := {_lit(a.value)}")
+            k += 1
+    return defs, rows
+
+
+def extract_src():
+    res = {}
+    for prefix, rel, cls, name in SRC_FUNCS:
+        fn = _func(_cls(_parse(rel), cls), name)
+        res[prefix] = _compile_fn(fn, prefix)
+    res["__sites__"] = _call_sites()
+    return res
+
+
+def render_src(res):
+    L = ["/- GENERATED by translate/g13_wsites.py (G13b) from /repo's current source — do not edit. -/",
+         "import TempestVerif.Sc", "namespace Gen.WeightSrc", "variable {α : Type} [ScT α]", ""]
+    for prefix, _rel, cls, name in SRC_FUNCS:
+        o = res[prefix]
+        L += [f"/-! ### `{cls}.{name}` -/", ""]
+        for d in o.defs:
+            L += [d, ""]
+        L += [f"def {prefix}Canon : List String :=\n  [" + ",\n   ".join(_q(x) for x in o.canon) + "]", ""]
+        L += [f"def {prefix}Leaves : List (String × List String) :=\n  [" +
+              ",\n   ".join("(" + _q(n) + ", " + _lean_list(t) + ")" for n, t in o.leaves) + "]", ""]
+        L += [f"def {prefix}Gathers : List (String × String × String) :=\n  [" +
+              ", ".join("(" + ", ".join(_q(x) for x in g) + ")" for g in o.gathers) + "]", ""]
+    sdefs, srows = res["__sites__"]
+    L += ["/-! ### every call of `compute_logw_and_logz` in the package -/", ""]
+    for d in sdefs:
+        L += [d, ""]
+    L += ["def callSites : List (String × String × String) :=\n  [" +
+          ",\n   ".join("(" + ", ".join(_q(x) for x in r) + ")" for r in srows) + "]", ""]
+    L += ["end Gen.WeightSrc", ""]
+    text = "\n".join(L)
+    if "\r" in text or any(ord(c) < 32 and c != "\n" for c in text):
+        raise Unavailable("control character in the generated text")
+    return text
+
+
+def generate_src():
+    try:
+        res = extract_src()
+        text = render_src(res)
+    except Unavailable as e:
+        return ("G13b-weight-source", "unavailable", str(e))
+    except (SyntaxError, OSError, RecursionError) as e:
+        return ("G13b-weight-source", "unavailable", f"{type(e).__name__}: {e}")
+    changed = common.write_if_changed(os.path.join(common.GEN, "WeightSrc.lean"), text)
+    n_defs = sum(len(o.defs) for k, o in res.items() if k != "__sites__") + len(res["__sites__"][0])
+    n_st = sum(len(o.canon) for k, o in res.items() if k != "__sites__")
+    return ("G13b-weight-source", "ok", f"{'re' if changed else ''}generated Gen/WeightSrc.lean ({n_defs} terms, {n_st} statements)")
+
+
 if __name__ == "__main__":
     import json
     print(json.dumps(extract(), indent=1))
     print(generate())
+    print(generate_src())
